@@ -291,10 +291,31 @@ def gen_cases(tier, seed):
     for k in range(16 if tier == "quick" else 64):
         cases.append({"id": "random-%d" % k, "kind": "random", "sig": ["random", k], "k": k, "len": 120 if tier == "quick" else 1200,
                       "pop": k % 2, "nsubj": len(SUBJ_FIELDS)})
+    # the same under process time zones other than UTC (expiry instants are UTC epochs / UTC strings: the zone must not matter)
+    for zi, tz in enumerate(clock.ZONES[1:]):
+        for k in range(2 if tier == "quick" else 8):
+            cases.append({"id": "random-tz%s-%d" % (tz, k), "kind": "random", "sig": ["random-tz", tz, k], "k": 1000 + 10 * zi + k, "len": 120 if tier == "quick" else 1200,
+                          "pop": k % 2, "nsubj": len(SUBJ_FIELDS), "tz": tz})
+        for i in (range(0, len(first), 5) if tier == "quick" else range(len(first))):
+            cases.append({"id": "exhaustive-d%d-first%02d-tz%s" % (depth - 1, i, tz), "kind": "exhaustive", "sig": ["exhaustive-tz", tz, depth - 1, i], "first": i,
+                          "depth": depth - 1, "pop": i % 2, "tz": tz})
     return cases
 
 
 def run_case(case, ctx):
+    with clock.process_tz(case.get("tz")):
+        r = _run_case(case, ctx)
+    if case.get("tz"):
+        for v in r.get("violations", []):
+            v.setdefault("detail", {})["process_time_zone"] = case["tz"]
+        r.setdefault("counters", {})["cases_under_non_utc_zone"] = 1
+        r["sigs"] = [[case["tz"]] + list(s) for s in r.get("sigs", [])] if "sigs" in r else r.get("sigs")
+        if r["sigs"] is None:
+            del r["sigs"]
+    return r
+
+
+def _run_case(case, ctx):
     counters, viols, sigs = {}, [], []
     rng = random.Random("%s/%s" % (ctx.seed, case["id"]))
     if case["kind"] == "exhaustive":
